@@ -107,8 +107,10 @@ class PythonParserGenerator(IndentPrintMixin, NodeWalker):
         def param_repr(p):
             if isinstance(p, int | float):
                 return str(p)
-            else:
+            elif isinstance(p, str):
                 return repr(p.split('::')[0])
+            else:
+                return repr(p)
 
         self.reset_counters()
         params = kwparams = ''
